@@ -45,7 +45,10 @@ type Set struct {
 	bgTarget              string // image the current BatchRelease was created for
 	c11StaleReady         int
 	brCreatedSinceRelease bool
-	brAtExit              string // state of the BatchRelease when the user's last exit action was written: none | deleting | live
+	// SyncPoints: configuration projection at the first write that persists (step k, StepPaused), as long as the user has
+	// done nothing but release / approve (C06 compares them between runs)
+	SyncPoints map[string]map[string]interface{}
+	brAtExit   string // state of the BatchRelease when the user's last exit action was written: none | deleting | live
 
 	st01 c01state
 	st02 c02state
@@ -66,6 +69,29 @@ func Attach(r *sim.Run) *Set {
 	r.W.Store.OnWrite = append(r.W.Store.OnWrite, s.onWrite)
 	return s
 }
+
+// AttachTenant attaches the monitors of one rollout that shares the cluster with others: only writes in the tenant's
+// namespace are delivered (the monitors read everything else through namespaced queries on the snapshot).
+func AttachTenant(r *sim.Run) *Set {
+	s := &Set{R: r, S: r.S, Counters: map[string]int64{}, Sets: map[string]map[string]bool{}}
+	s.ns, s.stable = r.S.NS, r.S.SvcName()
+	s.canary = s.stable + "-canary"
+	if r.S.NoCanarySvc {
+		s.canary = s.stable
+	}
+	s.stableImg, s.targetImg = "img:v1", "img:v1"
+	s.st02.init()
+	s.st03.exitReplicas = map[int]int{}
+	r.W.Store.OnWrite = append(r.W.Store.OnWrite, func(w *simapi.Write, v *simapi.View) {
+		if w.Key.NS == s.ns {
+			s.onWrite(w, v)
+		}
+	})
+	return s
+}
+
+// Tail returns the last writes the monitor saw (witness material).
+func (s *Set) Tail() []string { return append([]string{}, s.tail...) }
 
 func (s *Set) count(k string, n int64) { s.Counters[k] += n }
 func (s *Set) addSet(set, member string) {
@@ -247,6 +273,22 @@ func (s *Set) onWrite(w *simapi.Write, v *simapi.View) {
 	s.count("writes_seen", 1)
 	if w.Key.Kind != "Pod" {
 		s.addSet("actor_kind_verb", w.Actor+"/"+w.Key.Kind+"/"+w.Verb)
+	}
+	if w.Key.Kind == "Rollout" && w.After != nil && s.state == "StepPaused" && s.reason == "InRolling" {
+		quiet := true
+		for _, a := range s.R.UserActions {
+			a = strings.TrimSpace(a)
+			if a != "approve" && !strings.HasPrefix(a, "release") && a != "noop" && !strings.HasPrefix(a, "->") {
+				quiet = false
+			}
+		}
+		key := fmt.Sprintf("step%d/StepPaused", s.step)
+		if _, seen := s.SyncPoints[key]; quiet && !seen {
+			if s.SyncPoints == nil {
+				s.SyncPoints = map[string]map[string]interface{}{}
+			}
+			s.SyncPoints[key] = s.ConfigProjection(v)
+		}
 	}
 	s.c04(w, v)
 	s.c03(w, v)
